@@ -247,18 +247,15 @@ class NxMixedGraph:
         :return: A latent variable DAG.
         """
         self.raise_on_counterfactual()
-        rv = _latent_dag(
+        return _latent_dag(
             di_edges=self.directed.edges(),
             bi_edges=self.undirected.edges(),
+            # nodes without any edges are part of the graph, too
+            nodes=self.nodes(),
             prefix=prefix,
             start=start,
             tag=tag,
         )
-        # nodes without any edges are part of the graph, too
-        for node in self.nodes():
-            if node not in rv:
-                rv.add_node(node, **{DEFAULT_TAG if tag is None else tag: False})
-        return rv
 
     @classmethod
     def from_latent_variable_dag(cls, graph: nx.DiGraph, tag: str | None = None) -> NxMixedGraph:
@@ -753,6 +750,7 @@ def _latent_dag(
     di_edges: Iterable[tuple[Variable, Variable]],
     bi_edges: Iterable[tuple[Variable, Variable]],
     *,
+    nodes: Iterable[Variable] | None = None,
     prefix: str | None = None,
     start: int = 0,
     tag: str | None = None,
@@ -775,11 +773,19 @@ def _latent_dag(
     bi_edges_list = list(bi_edges)
 
     rv = nx.DiGraph()
+    if nodes is not None:
+        rv.add_nodes_from(nodes)
     rv.add_nodes_from(itt.chain.from_iterable(bi_edges_list))
     rv.add_edges_from(di_edges)
     nx.set_node_attributes(rv, False, tag)
-    for i, (u, v) in enumerate(sorted(bi_edges_list), start=start):
+    i = start
+    for u, v in sorted(bi_edges_list):
         latent_node = Variable(f"{prefix}{i}")
+        while latent_node in rv:
+            # do not take the name of a node that is already in the graph
+            i += 1
+            latent_node = Variable(f"{prefix}{i}")
+        i += 1
         rv.add_node(latent_node, **{tag: True})
         rv.add_edge(latent_node, u)
         rv.add_edge(latent_node, v)
